@@ -328,6 +328,30 @@ def _checked(op):
     return m
 
 
+def _rotate(direction):
+    def m(I, st, depth, callee, args, body, ln):
+        ty = _int_ty_of(callee)
+        if ty not in D.INT_TYPES:
+            return TOP
+        bits = D.INT_TYPES[ty][0]
+        a, n = args[0], args[1]
+        va, vn = (D.values(a) if is_scalar(a) else None), (D.values(n) if is_scalar(n) else None)
+        if va is None or vn is None or len(list(vn)) > 64:
+            return D.top_of_int(ty)
+        mask = (1 << bits) - 1
+        out = set()
+        for x in va:
+            x &= mask
+            for k in vn:
+                k %= bits
+                if direction == "r":
+                    out.add(((x >> k) | (x << (bits - k))) & mask)
+                else:
+                    out.add(((x << k) | (x >> (bits - k))) & mask)
+        return D.norm_set(frozenset(out))
+    return m
+
+
 def int_from_str_radix(I, st, depth, callee, args, body, ln):
     ty = _int_ty_of(callee)
     if ty in D.INT_TYPES:
@@ -594,6 +618,8 @@ for _ty in ("u8", "u16", "u32", "u64", "usize", "i8", "i16", "i32", "i64", "isiz
         TABLE[base + "checked_sub"] = _checked("Sub")
         TABLE[base + "checked_mul"] = _checked("Mul")
         TABLE[base + "from_str_radix"] = int_from_str_radix
+        TABLE[base + "rotate_right"] = _rotate("r")
+        TABLE[base + "rotate_left"] = _rotate("l")
 
 FROM_PRIMITIVE = re.compile(r"(?:^|::)FromPrimitive::from_(u8|u16|u32|usize|i8|i16|i32|isize)$")
 
